@@ -15,6 +15,7 @@ SYMS = {
     'a': (TNS, 'a', 10), 'b': (TNS, 'b', 11), 'c': (TNS, 'c', 12), 'd': (TNS, 'd', 13),
     'm': (TNS, 'm', 14),                      # substitution member of head 'h'
     'h': (TNS, 'h', 15),                      # substitution head
+    'k': (TNS, 'k', 16),                      # a second head: in XSD 1.1 'm' may substitute both (C15 dual family)
     'x': (ONS, 'x', 20), 'y': (PNS, 'y', 21), 'n': ('', 'n', 30),
 }
 CODE = {k: v[2] for k, v in SYMS.items()}
@@ -35,6 +36,8 @@ def wild_allows(ns_constraint, sym, tns=TNS):
 
 def leaf_symbols(leaf):
     """The symbols of SYMS that a leaf matches."""
+    if 'syms' in leaf:
+        return leaf['syms']
     if leaf['t'] == 'e':
         return ['h', 'm'] if leaf['n'] == 'h' else [leaf['n']]
     return [s for s in SYMS if wild_allows(leaf['ns'], s, leaf.get('tns', TNS))]
